@@ -265,7 +265,33 @@ func c18Body(t *testing.T, st *c18Setup, kinds []string) sched.Body {
 			}
 			// a wrapped login leaves the wrapped (inner) token alive: that is the payload itself
 			if st.wrapKind != "login" && len(extra) > 0 {
-				fail("wrapping-residue-in-storage", fmt.Sprintf("after retrieval and quiescence these token/lease/cubbyhole records remain: %v", extra))
+				sig := "wrapping-residue-in-storage"
+				// One shape is told apart (it exists on the unchanged tree, F20): the only record
+				// left is the wrapping token's own entry, and a request consuming the token wrote
+				// it (the use-count store of UseToken) after an explicit revocation running in
+				// another thread had already deleted it. UseToken and revokeInternal share no lock.
+				// On the unchanged tree this needs three preemptions when only two requests run
+				// (the quick tier covers all pairs up to two preemptions exhaustively and never
+				// sees it): with fewer it is not that finding and keeps the plain signature.
+				if len(extra) == 1 && strings.HasPrefix(extra[0], "sys/token/id/") && (len(kinds) >= 3 || x.Preemptions >= 3) {
+					revoker := ""
+					for i, k := range kinds {
+						if k == "revoke" {
+							revoker = fmt.Sprintf("r%d", i)
+						}
+					}
+					deleted := -1
+					for i, tr := range x.Trace {
+						if revoker != "" && tr == revoker+":delete:"+extra[0] {
+							deleted = i
+						}
+						if deleted >= 0 && i > deleted && strings.HasSuffix(tr, ":put:"+extra[0]) && !strings.HasPrefix(tr, revoker+":") {
+							sig += ":token-entry-rewritten-by-a-use-after-explicit-revocation-deleted-it"
+							break
+						}
+					}
+				}
+				fail(sig, fmt.Sprintf("after retrieval and quiescence these token/lease/cubbyhole records remain: %v", extra))
 			}
 		}
 	}
